@@ -131,14 +131,24 @@ def check_history(case):
         if isinstance(h, list):
             apply_binding(P, cells, h, others)
             applied.append(h)
+            got_now = [quiet_parse(P, p) for p in case['probes']]       # before any other parser is built
             # the reference is a fresh parser that received the same (re)bindings and nothing else
             fcells = dict(CELLS)
             F = make(debug, fcells)
             for b in applied:
                 apply_binding(F, fcells, b)
             fresh0 = [quiet_parse(F, p) for p in case['probes']]
+            for p, g, w in zip(case['probes'], got_now, fresh0):
+                if not same_outcome(g, w):
+                    raise Violation('after the history %r the long-lived parser (debug=%r) evaluates %r to %r, a fresh parser given the same registrations to %r' % (case['history'][:step + 1], debug, p, g, w),
+                                    enc(g['result']) if g['error'] is None else g['error'], enc(w['result']) if w['error'] is None else w['error'])
         else:
             quiet_parse(P, h)
+        # names that were only ever registered on the other parser object stay unknown here (a fixed fact: no reference parser involved)
+        for p in ('EXTRA(1)', 'v_other'):
+            g = quiet_parse(P, p)
+            if g['error'] != '#NAME?':
+                raise Violation('after the history %r the parser evaluates %r to %r although that name was registered on a different parser object only' % (case['history'][:step + 1], p, g), g['error'] or enc(g['result']), '#NAME?')
         for p, want in zip(case['probes'], fresh0):
             got = quiet_parse(P, p)
             if not same_outcome(got, want):
@@ -304,7 +314,7 @@ def ret_key(case):
 
 
 LAWS = [
-    Law('history_independence', check_history, strategy=history_case, classes=hist_classes, quick=6000, thorough=150000, shards=(16, 16),
+    Law('history_independence', check_history, strategy=history_case, classes=hist_classes, quick=3500, thorough=150000, shards=(16, 16),
         required=('callback-aborted', 'nested-failure', 'syntax-error', 'error-literal', 'rebinding', 'other-parser-registration', 'debug:True', 'debug:False'),
         nontrivial=lambda c: 'callback-aborted' in hist_classes(c) or len(c['history']) >= 3,
         rule='a long-lived parser with fixed bindings evaluates a generated history of 1-12 formulas (valid ones, lexical and syntax errors, run-time errors, error literals, callbacks that raise, callbacks whose own nested parse fails) interleaved with re-bindings of variables and cell values and with registrations made on a different parser object; '
